@@ -16,7 +16,7 @@ pub fn def() -> PropDef {
     PropDef {
         id: "C02",
         level: "model_checking",
-        rule: "every sequence (with repetition) of length <= d of (ingress path, entry) steps over the entry universe, each applied to a fresh real replica pre-populated with three bystander entries of a second author; after the last step the full observable state is compared with the reference model and with the from-scratch definition spec(set(sequence)); non-trivial = the sequence contains two steps of the same author whose keys are prefix-related (incl. equal)",
+        rule: "every sequence (with repetition) of length <= d of (ingress path, entry) steps over the entry universe, each applied to a fresh real replica pre-populated with three bystander entries of a second author; after the last step the full observable state is compared with the reference model and with the from-scratch definition spec(set(sequence)); a further family N places raw entries of four author ids that are byte-order neighbours of a writer whose id ends in 0xFF (just below, at the exact end of its key space, inside the range a lost carry would cover, and beyond) and runs every sequence of <= 2 writes of that writer over keys {'', 0xFF, a} x 2 timestamps x {x, y, DEL} on both ingress paths: the neighbours' entries must be untouched and the removed counts must equal the model; non-trivial = the sequence contains two steps of the same author whose keys are prefix-related (incl. equal)",
         assumptions: &[
             "entries differing only in `len` (same hash and timestamp) are outside the alphabet",
             "ed25519 signing is deterministic, so a local insert with the pinned clock yields byte-identical entries to the pre-signed remote entry",
@@ -180,6 +180,130 @@ pub fn run_path(pre: &[Spec], steps: &[Step]) -> (Vec<(&'static str, Value, Stri
     (bad, rendering)
 }
 
+// ------------------------------------------------------------------------------------------
+// Family N: authors whose ids are neighbours in byte order. The writer's id ends in 0xFF; raw
+// entries (below the validation layer, hook `raw_entry_put`) of author ids just below it, at
+// the exact exclusive end of its key space (.., k+1, 0x00) and inside the range a lost carry
+// would wrongly cover (.., k+1, 0x80) are present. "Never touches another author's entries."
+
+fn neighbour_ids() -> Vec<[u8; 32]> {
+    let w = crate::universe::author_id(crate::universe::EDGE_AUTHOR).to_bytes();
+    let mut below = w;
+    below[31] = 0xfe;
+    let mut end = w;
+    end[30] += 1;
+    end[31] = 0x00;
+    let mut gap = end;
+    gap[31] = 0x80;
+    let mut far = end;
+    far[31] = 0xff;
+    vec![below, end, gap, far]
+}
+
+fn neighbour_entries() -> Vec<iroh_docs::sync::SignedEntry> {
+    let mut v = vec![];
+    for (i, a) in neighbour_ids().iter().enumerate() {
+        // keys without prefix relations among them (raw entries bypass the admission rule)
+        for key in [&b"a"[..], b"b", b"\xff"] {
+            let (h, l) = Val::X.hash_len();
+            let mut id = ns_id(0).to_bytes().to_vec();
+            id.extend_from_slice(a);
+            id.extend_from_slice(key);
+            v.push(
+                crate::mirror::RawSigned {
+                    author_sig: [i as u8 + 1; 64],
+                    ns_sig: [0x77; 64],
+                    id,
+                    len: l,
+                    hash: *h.as_bytes(),
+                    ts: crate::universe::T0 + 1,
+                }
+                .to_signed()
+                .expect("decodes"),
+            );
+        }
+    }
+    v
+}
+
+fn edge_universe() -> Vec<Spec> {
+    universe(0, &[crate::universe::EDGE_AUTHOR], &[b"", b"\xff", b"a"], 2)
+}
+
+fn run_neighbours(steps: &[Step]) -> (Vec<(&'static str, Value, String)>, String) {
+    set_clock(crate::universe::NOW);
+    let mut bad = vec![];
+    let ns = ns_id(0);
+    let mut sut = Sut::memory_with(&[0]);
+    let mut model = ModelReplica::default();
+    let neighbours = neighbour_entries();
+    for e in &neighbours {
+        iroh_docs::verif::raw_entry_put(&mut sut.store, ns, e.clone()).expect("raw put");
+        model.put(e);
+    }
+    if sut.dump(ns) != model.dump() {
+        bad.push(("MACHINERY_neighbours_in_place", json!({}), "raw neighbour entries are not all present".to_string()));
+    }
+    let mut outcomes = vec![];
+    for (i, st) in steps.iter().enumerate() {
+        let got = apply(&mut sut, st);
+        let want = model_outcome(&mut model, &st.spec);
+        if got != want {
+            bad.push((
+                "return_value",
+                json!({"path": st.path, "impl": outcome_kind(&got), "model": outcome_kind(&want), "neighbour_authors": true}),
+                format!("step {i} {st} (author id ends in 0xFF): impl={got:?} model={want:?}"),
+            ));
+        }
+        outcomes.push(got);
+    }
+    let dump = sut.dump(ns);
+    let theirs = |v: &[iroh_docs::sync::SignedEntry]| -> Vec<iroh_docs::sync::SignedEntry> {
+        v.iter().filter(|e| e.author() != crate::universe::author_id(crate::universe::EDGE_AUTHOR)).cloned().collect()
+    };
+    if theirs(&dump) != neighbours {
+        bad.push((
+            "other_authors_untouched",
+            json!({"neighbour_authors": true}),
+            format!("{} of the {} entries of the neighbouring author ids are left", theirs(&dump).len(), neighbours.len()),
+        ));
+    }
+    if dump != model.dump() {
+        bad.push((
+            "state_equals_model",
+            json!({"neighbour_authors": true}),
+            format!("impl holds {} entries, model {}", dump.len(), model.dump().len()),
+        ));
+    }
+    (bad, format!("{outcomes:?}|{}", dump.len()))
+}
+
+fn one_neighbours(report: &mut Report, steps: &[Step], ordinal: u64) {
+    report.evaluations += 1;
+    report.traces += 1;
+    report.transitions += steps.len() as u64;
+    // non-trivial: a write at a key that is a prefix of every key of the author (the empty key)
+    // or consists of 0xFF bytes only: its pruning range ends at the end of the author's key space
+    let nontrivial = steps.iter().any(|s| s.spec.key.iter().all(|b| *b == 0xff));
+    if nontrivial {
+        report.nontrivial += 1;
+    }
+    let case = json!({"family": "neighbour_authors", "steps": steps});
+    match catch(|| run_neighbours(steps)) {
+        Err(p) => report.violation("no_panic", json!({"neighbour_authors": true}), case, format!("panic: {p}"), ordinal),
+        Ok((bad, rendering)) => {
+            report.outcome(format!("N:{rendering}"));
+            for (oracle, witness, detail) in bad {
+                if oracle.starts_with("MACHINERY") {
+                    report.machinery_error(format!("{oracle}: {detail}"));
+                } else {
+                    report.violation(oracle, witness, case.clone(), detail, ordinal);
+                }
+            }
+        }
+    }
+}
+
 fn outcome_kind(o: &Outcome) -> &'static str {
     match o {
         Outcome::Inserted(_) => "inserted",
@@ -218,6 +342,30 @@ fn run(ctx: &Ctx, report: &mut Report) {
                 }
             });
         }
+    }
+    run_family_n(ctx, report, &mut ordinal);
+}
+
+fn run_family_n(ctx: &Ctx, report: &mut Report, ordinal: &mut u64) {
+    let u = edge_universe();
+    for depth in 1..=2usize {
+        for_each_sequence(u.len(), depth, |seq| {
+            for mask in 0..(1u32 << depth) {
+                *ordinal += 1;
+                if !ctx.mine(*ordinal) {
+                    continue;
+                }
+                let steps: Vec<Step> = seq
+                    .iter()
+                    .enumerate()
+                    .map(|(i, &x)| Step {
+                        path: if mask >> i & 1 == 1 { Path::L } else { Path::R },
+                        spec: u[x].clone(),
+                    })
+                    .collect();
+                one_neighbours(report, &steps, *ordinal);
+            }
+        });
     }
 }
 
@@ -261,6 +409,19 @@ fn one(report: &mut Report, pre: &[Spec], steps: &[Step], ordinal: u64) {
 }
 
 fn replay(case: &Value) -> anyhow::Result<(bool, String)> {
+    if case["family"] == "neighbour_authors" {
+        let steps: Vec<Step> = serde_json::from_value(case["steps"].clone())?;
+        return match catch(|| run_neighbours(&steps)) {
+            Err(p) => Ok((true, format!("panic: {p}"))),
+            Ok((bad, rendering)) => {
+                let mut out = format!("neighbour-author family, steps {:?}\nobserved {rendering}\n", steps.iter().map(|s| s.to_string()).collect::<Vec<_>>());
+                for (o, _, d) in &bad {
+                    out.push_str(&format!("FAILED {o}: {d}\n"));
+                }
+                Ok((!bad.is_empty(), out))
+            }
+        };
+    }
     let (pre, steps) = steps_from_json(case)?;
     let mut out = String::new();
     for s in &steps {
